@@ -30,6 +30,13 @@ PANIC_CALLS = ('std::rt::begin_panic', 'core::panicking::', 'std::rt::panic_fmt'
                '::step_by', '::chunks', '::windows', 'String::remove', '::rem_euclid', '::div_euclid',
                'core::unreachable', 'unreachable_display', 'slice_index', 'Index<std::ops::Range')
 
+
+
+def is_panic_call(n):
+    """A callee that can panic: one of PANIC_CALLS, or an integer power (`i64::pow` panics on overflow in debug builds)."""
+    return any(p in n for p in PANIC_CALLS) or (n.endswith('>::pow') and 'core::num::' in n)
+
+
 NON_PANICKING = ('::unwrap_or', '::unwrap_or_else', '::unwrap_or_default', '::expect_none_never')
 
 # Committed precondition / justification table: signature -> (max count, reason).  A site that is neither discharged
@@ -138,7 +145,7 @@ def _r1(ctx, oa):
                 site = ('assert', t['kind'], t)
             elif t['t'] == 'call':
                 n = callee_name(t) or ''
-                if any(p in n for p in PANIC_CALLS) and not n.endswith(NON_PANICKING):
+                if is_panic_call(n) and not n.endswith(NON_PANICKING):
                     site = ('call', n, t)
             if site is None:
                 continue
@@ -250,6 +257,19 @@ def _judge(ctx, oa, b, cfg, tr, bi, site, fams):
         return 'violation', 'unwrap', 'an unwrap()/expect() on a Result: an error would panic instead of being reported'
     if 'Uniform::<X>::new' in n:
         return _uniform_new(ctx, oa, b, tr, t)
+    if n.endswith('>::pow'):
+        if 'core::num::' not in n or t['dest'].get('ty') not in ('u8', 'u16', 'u32', 'u64', 'u128', 'usize', 'i8', 'i16', 'i32', 'i64',
+                                                                    'i128', 'isize'):
+            return 'discharged', 'pow(non-integer)', 'not an integer power (no overflow check)'
+        from ..sizes import RANGES, _plain
+        try:
+            iv = _sizes(ctx).interval(b, {'k': 'copy', 'l': t['dest']['l'], 'p': [], 'ty': t['dest'].get('ty')})
+        except Exception:      # noqa: BLE001
+            iv = None
+        rng = RANGES.get(t['dest'].get('ty'))
+        if _plain(iv) and rng and rng[0] <= iv[0] and iv[1] <= rng[1]:
+            return 'discharged', 'integer-pow', 'base and exponent bounded: the power lies in [%d, %d]' % iv
+        return 'violation', 'integer-pow', 'an integer power that is not shown to fit its type (panics on overflow in debug builds)'
     if 'gen_range' in n:
         lo, hi = _const_number(tr, t['args'][1]), _const_number(tr, t['args'][2])
         if isinstance(lo, (int, float)) and isinstance(hi, (int, float)) and lo < hi:
